@@ -52,6 +52,10 @@ func c16RecordsScenario(x *mc.X) *mc.Outcome {
 		{"Struct{a, r, p, zz}.Pick(a, r, p)", func() *z.StructSchema {
 			return z.Struct(z.Schema{"a": a(), "r": r(), "p": p(), "zz": z.Int()}).Pick("a", "r", "p")
 		}},
+		{"Struct{a, p, r: Struct{s, extra} with a record-level test}.Merge(Struct{r}) (the later field replaces the earlier)", func() *z.StructSchema {
+			earlier := z.Struct(z.Schema{"s": z.String().Min(9).Required(), "extra": z.String().Required()}).TestFunc(func(v any, c z.Ctx) bool { return false }, z.IssueCode("earlier_rule"))
+			return z.Struct(z.Schema{"a": a(), "p": p(), "r": earlier}).Merge(z.Struct(z.Schema{"r": r()}))
+		}},
 		{"Struct{a, zz}.Omit(zz).Extend({r}).Merge(Struct{p})", func() *z.StructSchema {
 			return z.Struct(z.Schema{"a": a(), "zz": z.Int()}).Omit("zz").Extend(z.Schema{"r": r()}).Merge(z.Struct(z.Schema{"p": p()}))
 		}},
